@@ -59,6 +59,7 @@ class TapeRecorder:
     def grade(self, *grades):
         if len(grades) == 1 and isinstance(grades[0], tuple):
             grades = grades[0]
+        grades = tuple(sorted(set(grades)))
 
         basis_blades = self.algebra.indices_for_grades[grades]
         indices_keys = [(idx, k) for idx, k in enumerate(self.keys()) if k in basis_blades]
